@@ -183,16 +183,19 @@ def _line(case):
                 if okc:
                     c.true("Plane.contains/offplane", not bool(r), "plane contains a point 5%% of the scale off it")
                 c.eq("Plane.PN/normal", np.cross(np.asarray(plane.n, dtype=float), nrm), np.zeros(3), TOL, max(1.0, nn * nn))
-                oki, ip = c.lib(name + "/intersect_plane", ln.intersect_plane, plane)
-                if oki and c.true(name + "/intersect_plane/notnone", ip is not None, "intersect_plane returned None for a non-parallel plane"):
-                    ipp = np.asarray(ip.p, dtype=float)
-                    t_true = np.dot(qq - p, nrm) / np.dot(wh, nrm)
-                    want = p + wh * t_true
-                    Si = max(Sq, float(np.max(np.abs(want))))
-                    c.eq(name + "/intersect_plane/p", ipp, want, TOL * 10, Si / abs(np.dot(refs.unit(nrm), wh)))
-                    okl, Pl = c.lib(name + "/intersect_plane/point(lam)", ln.point, float(ip.lam))
-                    if okl:
-                        c.eq(name + "/intersect_plane/lam", np.asarray(Pl, dtype=float)[:, 0], want, TOL * 10, Si / abs(np.dot(refs.unit(nrm), wh)))
+                coeff = np.r_[nrm, -np.dot(nrm, qq)]
+                for pform, parg in (("Plane", plane), ("list", [float(x) for x in coeff]), ("array", coeff.copy())):
+                  oki, ip = c.lib(name + "/intersect_plane", ln.intersect_plane, parg)
+                  c.feat(plane_form=pform)
+                  if oki and c.true(name + "/intersect_plane/notnone", ip is not None, "intersect_plane returned None for a non-parallel plane"):
+                      ipp = np.asarray(ip.p, dtype=float)
+                      t_true = np.dot(qq - p, nrm) / np.dot(wh, nrm)
+                      want = p + wh * t_true
+                      Si = max(Sq, float(np.max(np.abs(want))))
+                      c.eq(name + "/intersect_plane/p", ipp, want, TOL * 10, Si / abs(np.dot(refs.unit(nrm), wh)))
+                      okl, Pl = c.lib(name + "/intersect_plane/point(lam)", ln.point, float(ip.lam))
+                      if okl:
+                          c.eq(name + "/intersect_plane/lam", np.asarray(Pl, dtype=float)[:, 0], want, TOL * 10, Si / abs(np.dot(refs.unit(nrm), wh)))
     # plane through three points
     a, b_, cc = p, p + w, p + n1 * max(1.0, wn)
     okp, pl3 = c.lib("Plane.P3", L.Plane.P3, np.stack([a, b_, cc], axis=1))
